@@ -72,6 +72,7 @@ pub fn run(ctx: &mut Ctx) {
             // a quarter of the verdicts are produced by a solver object that has already been used: a first
             // solve cut off after one iteration leaves finite objective values and a non-infeasible status behind
             let reused = rng.bool(0.25);
+            let mut updated = false;
             let attempt = if reused {
                 let mut st1 = st.clone();
                 st1.max_iter = 1;
@@ -81,9 +82,38 @@ pub fn run(ctx: &mut Ctx) {
                     let ev = problem::solve_observed(&mut solver)?;
                     Ok(problem::extract(&solver, ev))
                 })
+            } else if rng.bool(0.2) && p.m() > 0 {
+                // ... and some by a solver that was BUILT on slightly different right-hand sides / costs and brought
+                // to the problem under test by in-place (index,value) updates: the certificate must be about the data
+                // the solver holds now, as the user wrote them
+                let mut p0 = p.clone();
+                let idx: Vec<usize> = (0..rng.usize(1, p.m().min(4))).map(|_| rng.usize(0, p.m() - 1)).collect();
+                for &i in &idx {
+                    p0.b[i] += rng.range(0.5, 2.0);
+                }
+                let jdx: Vec<usize> = (0..rng.usize(1, p.n().min(3))).map(|_| rng.usize(0, p.n() - 1)).collect();
+                for &j in &jdx {
+                    p0.q[j] -= rng.range(0.5, 2.0);
+                }
+                let vb: Vec<f64> = idx.iter().map(|&i| p.b[i]).collect();
+                let vq: Vec<f64> = jdx.iter().map(|&j| p.q[j]).collect();
+                match problem::new_solver(&p0, &st) {
+                    Ok(mut solver) => {
+                        if solver.update_b(&(idx, vb)).is_ok() && solver.update_q(&(jdx, vq)).is_ok() {
+                            updated = true;
+                            problem::solve_observed(&mut solver).map(|ev| problem::extract(&solver, ev))
+                        } else {
+                            problem::run(&p, &st)
+                        }
+                    }
+                    Err(_) => problem::run(&p, &st),
+                }
             } else {
                 problem::run(&p, &st)
             };
+            if updated {
+                ctx.bump("verdicts_after_in_place_updates");
+            }
             let res = match attempt {
                 Ok(r) => r,
                 Err(msg) => {
